@@ -582,6 +582,7 @@ inline J plan_c01(uint64_t verif_seed, uint64_t index, int tier) {
     cfg.nonsimple_paths = ro.chance(0.4);
     cfg.robust_paths = ro.chance(0.4);
     cfg.multi_element_simple_paths = true;
+    cfg.rings = true;
     cfg.long_strings = ro.chance(0.2);
     cfg.close_vertices = ro.chance(0.1);
     cfg.simple_polys_only = max_points > 4;  // fracturing is only defined for simple polygons
@@ -771,6 +772,7 @@ inline J plan_c03(uint64_t verif_seed, uint64_t index, int tier) {
         cfg.nonsimple_paths = ro.chance(0.3);
         cfg.robust_paths = ro.chance(0.3);
         cfg.multi_element_simple_paths = true;
+        cfg.rings = true;
         cfg.long_strings = ro.chance(0.2);
         cfg.simple_polys_only = max_points > 4;
         model::MLib m = gen::library(rm, cfg);
@@ -862,8 +864,10 @@ inline J random_filter(Rng& r, const model::MLib& m) {
         J t = J::arr();
         if (!tags.empty() && r.chance(0.8)) {
             auto& tg = tags[r.below(tags.size())];
-            t.push((int64_t)tg.first);
-            t.push((int64_t)(r.chance(0.85) ? tg.second : tg.second + 1));
+            // (a 16-bit field above 32767 is sign-extended by the loader: the filter names the tag as it loads)
+            auto as_loaded = [](uint32_t v) { return (int64_t)(v >= 32768 && v <= 65535 ? (v | 0xFFFF0000u) : v); };
+            t.push(as_loaded(tg.first));
+            t.push(r.chance(0.85) ? as_loaded(tg.second) : (int64_t)tg.second + 1);
         } else {
             t.push((int64_t)r.below(10));
             t.push((int64_t)r.below(10));
@@ -905,7 +909,10 @@ inline J plan_c17(uint64_t verif_seed, uint64_t index, int tier) {
         static const uint32_t wild[] = {32768, 40000, 50000, 65535};
         for (auto& c : m.cells) {
             for (auto& p : c.polys)
-                if (ro.chance(0.3)) (ro.chance(0.5) ? p.layer : p.dtype) = wild[ro.below(4)];
+                if (ro.chance(0.3)) {
+                    (ro.chance(0.5) ? p.layer : p.dtype) = wild[ro.below(4)];
+                    if (ro.chance(0.3)) p.layer = p.dtype = 65535;  // loads as "all bits set"
+                }
             for (auto& p : c.paths)
                 if (ro.chance(0.3)) (ro.chance(0.5) ? p.layer : p.dtype) = wild[ro.below(4)];
             for (auto& l : c.labels)
@@ -1200,6 +1207,7 @@ inline J plan_c02(uint64_t verif_seed, uint64_t index, int tier) {
     cfg.nonsimple_paths = false;
     cfg.robust_paths = ro.chance(0.4);
     cfg.multi_element_simple_paths = true;
+    cfg.rings = true;
     cfg.long_strings = ro.chance(0.2);
     cfg.simple_polys_only = true;
     cfg.dangling = ro.chance(0.35);
@@ -1328,6 +1336,7 @@ inline J plan_c04(uint64_t verif_seed, uint64_t index, int tier) {
         cfg.max_vertices = (int)ro.range(4, 40);
         cfg.robust_paths = ro.chance(0.3);
         cfg.multi_element_simple_paths = true;
+        cfg.rings = true;
         cfg.long_strings = ro.chance(0.2);
         cfg.simple_polys_only = true;
         cfg.dangling = ro.chance(0.3);
